@@ -1874,7 +1874,12 @@ class Engine:
                             if isinstance(tt, ast.Name): names.add(tt.id)
         return names, muts, attrs
 
-    def havoc_loop_state(self, st, names, muts, attrs, extra_fields=()):
+    def havoc_loop_state(self, st, names, muts, attrs, extra_fields=(), ghost_keys=()):
+        if ghost_keys:
+            g = dict(st.ghost)
+            for gk in ghost_keys:
+                g[gk] = fresh(f"ghost_{gk}", st.ghost[gk].sort())
+            st = st.copy(ghost=g)
         env = dict(st.env)
         heap = dict(st.heap)
         for n in sorted(names):
@@ -1959,7 +1964,7 @@ class Engine:
         out = []
         # arbitrary iteration
         k = fresh('k', IntS)
-        h = self.havoc_loop_state(st, names, muts, attrs, extra).assume(k >= 0, k < n, n >= 0)
+        h = self.havoc_loop_state(st, names, muts, attrs, extra, lc.modifies_ghost if lc is not None else ()).assume(k >= 0, k < n, n >= 0)
         if lc is not None:
             h = h.assume(*[g for (_, g) in lc.inv(self, h, k, st)])
         facts = []
@@ -1988,7 +1993,7 @@ class Engine:
                 else:
                     out.append((s2, kind, v))
         # after the loop
-        e = self.havoc_loop_state(st, names, muts, attrs, extra).assume(n >= 0)
+        e = self.havoc_loop_state(st, names, muts, attrs, extra, lc.modifies_ghost if lc is not None else ()).assume(n >= 0)
         if lc is not None:
             e = e.assume(*[g for (_, g) in lc.inv(self, e, n, st)])
         q = self.fork(e, z3.BoolVal(True))
@@ -2010,7 +2015,7 @@ class Engine:
             for (nm, g) in lc.inv(self, st, None, st):
                 self.oblige(st, f"{label}:init:{nm}", g)
         out = []
-        h = self.havoc_loop_state(st, names, muts, attrs, extra)
+        h = self.havoc_loop_state(st, names, muts, attrs, extra, lc.modifies_ghost if lc is not None else ())
         if lc is not None:
             h = h.assume(*[g for (_, g) in lc.inv(self, h, None, st)])
         exits = []
@@ -2092,8 +2097,8 @@ class CompEffect:
 
 
 class LoopContract:
-    def __init__(self, inv, measure=None, modifies_fields=()):
-        self._inv, self.measure, self.modifies_fields = inv, measure, modifies_fields
+    def __init__(self, inv, measure=None, modifies_fields=(), modifies_ghost=()):
+        self._inv, self.measure, self.modifies_fields, self.modifies_ghost = inv, measure, modifies_fields, modifies_ghost
 
     def inv(self, en, st, k, st0):
         r = self._inv(en, st, k, st0)
